@@ -43,7 +43,9 @@ SPEC = {
         "and VARCHAR lengths, MERGE, views) the crash points are enumerated: every op boundary x {clean exit, exception in the with-body}, "
         "every engine call x {kill before, kill after}, every write/pwrite/fsync/ftruncate/unlink/rename on the database files x {kill, "
         "torn write, the call failing once with EIO, the disk being full from this call on (ENOSPC) - after a disk error the program stops at the first statement that "
-        "reports it and leaves cleanly or by an exception} (capped per history, evenly spaced beyond the cap). A fresh process then re-opens the same db_path and its observable "
+        "reports it and leaves cleanly or by an exception} (capped per history, evenly spaced beyond the cap); up to three points per history where the block is left by an exception with the "
+        "connections still referenced and the same process enters patch() on the same directory again for the rest of the history. Every other restart reaches "
+        "the databases beyond the first by CREATE DATABASE IF NOT EXISTS instead of connect(). A fresh process then re-opens the same db_path and its observable "
         "state (catalog, rows, comments, VARCHAR lengths) must equal the committed state before or after the single in-flight statement, "
         "exactly the committed state after a clean/exception exit. Histories are sampled; crash points per history are enumerated."
     ),
@@ -61,7 +63,7 @@ SPEC = {
     "components_real": ["fakesnow/* incl. patch()", "snowflake.connector (patched entry points)", "sqlglot", "duckdb engine with its real file format and WAL on a tmpfs/disk directory", "process death (fork + _exit)"],
     "components_stubbed": ["kill timing (chosen engine call / syscall index instead of a signal)", "torn write (page-aligned prefix written by the shim)", "disk errors (the shim returns -1 with EIO / ENOSPC instead of calling the kernel)"],
     "assumptions": ["page cache survives the kill", "single writer process per db_path at a time"],
-    "mandatory_probes": {"any": ["kill_before_event", "kill_after_event", "kill_at_syscall", "torn_write", "disk_eio_once", "disk_full", "disk_error_surfaced_in_statement", "clean_exit", "body_exception", "inflight_statement", "open_txn_at_fault", "memory_scenario", "memory_next_to_db_path", "own_view_checks"]},
+    "mandatory_probes": {"any": ["kill_before_event", "kill_after_event", "kill_at_syscall", "torn_write", "disk_eio_once", "disk_full", "disk_error_surfaced_in_statement", "exception_then_second_patch", "restart_reaches_database_by_statement", "clean_exit", "body_exception", "inflight_statement", "open_txn_at_fault", "memory_scenario", "memory_next_to_db_path", "own_view_checks"]},
 }
 
 HAZARDS = ["multi_call_statement"]
@@ -516,6 +518,45 @@ def proc_a(w: int, D: str, case: dict[str, Any], fault: dict[str, Any], referenc
         if kind == "ioerr":
             lib.fsv_failed.restype = ctypes.c_long
     how = "clean"
+    if kind == "reenter":
+        # the with-block is left by an exception while the program still holds its connections; the same process then
+        # enters patch() on the same directory again, goes on with the history and ends cleanly
+        import gc
+
+        at = fault["at"]
+        kept: list[Any] = []
+        try:
+            with fakesnow.patch(db_path=D):
+                world = PatchedWorld(sim)
+                kept.append(world)
+                for j, op in enumerate(case["ops"][:at]):
+                    _emit(w, {"ev": "op_start", "i": j, "events": sim.engine_events, "sys": 0})
+                    out = world.apply(op)
+                    _emit(w, {"ev": "op_done", "i": j, "ok": out.get("ok"), "exc": out.get("exc"), "events": sim.engine_events, "sys": 0})
+                raise BodyError()
+        except BodyError:
+            pass
+        try:
+            with fakesnow.patch(db_path=D):
+                world = PatchedWorld(sim)
+                seen: set[str] = set()
+                for op in case["ops"][:at]:
+                    if op["k"] == "connect" and op["s"] not in seen:
+                        seen.add(op["s"])
+                        world.apply(op)  # the sessions of the first life connect again the way they did
+                    elif op_kind(op) == "create_db" and (op.get("st") or {}).get("name"):
+                        world.fs.connect(database=op["st"]["name"])  # a database made by statement has to be attached again in a new life
+                for j, op in enumerate(case["ops"][at:], at):
+                    _emit(w, {"ev": "op_start", "i": j, "events": sim.engine_events, "sys": 0})
+                    out = world.apply(op)
+                    _emit(w, {"ev": "op_done", "i": j, "ok": out.get("ok"), "exc": out.get("exc"), "events": sim.engine_events, "sys": 0})
+            how = "reenter"
+        except BaseException as e:  # noqa: BLE001
+            how = f"reenter-raised:{type(e).__name__}: {str(e)[:120]}"
+        kept.clear()
+        gc.collect()  # the first life's connections are let go only now
+        _emit(w, {"ev": "end", "how": how, "events": sim.engine_events, "sys": 0, "shim": have_shim, "failed_calls": 0})
+        os._exit(0)
     try:
         with fakesnow.patch(db_path=D):
             world = PatchedWorld(sim)
@@ -671,6 +712,16 @@ def _judge(case: dict[str, Any], fault: dict[str, Any], recs_a: list[dict[str, A
     last_done = max(done) if done else -1
     inflight = started[-1] if started and (not done or started[-1] > last_done) else None
     before = snaps[last_done] if last_done >= 0 else empty
+    if fault["kind"] == "reenter":
+        end = next((r for r in recs_a if r["ev"] == "end"), None)
+        if end is None or end.get("how") != "reenter":
+            return v_("reenter/second-patch-fails", "patch() on the same db_path can be entered again in the same process after the block was left by an exception", {"fault": fault, "end": end})
+        if snap_b.get("attach_errors"):
+            return v_("restart-fails/after-reenter", "a database file could not be re-opened", {"fault": fault, "errors": snap_b["attach_errors"]})
+        d = diff(snap_b, snaps[-1])
+        if d:
+            return v_("after-reenter/state-differs", "what both lives of the process committed is there afterwards", {"fault": fault, "diff": explain(snap_b, snaps[-1], d)})
+        return None
     if fault["kind"] == "ioerr":
         # a disk error (EIO once / disk full from here on): every statement acknowledged before the program gave up must
         # survive; the statement in which the error surfaced (it raised, or the process died in it) may be there or not
@@ -801,6 +852,15 @@ def run(case: dict[str, Any]) -> dict[str, Any]:
             for j in range(1, n + 1):
                 points.append({"kind": "clean", "at": j})
                 points.append({"kind": "exception", "at": j})
+            bal: dict[str, bool] = {}
+            splits = []
+            for j, op in enumerate(case["ops"]):
+                t = op_kind(op)
+                bal[op["s"]] = True if t == "begin" else False if t in ("commit", "rollback", "connect", "close") else bal.get(op["s"], False)
+                if j + 1 < n and not any(bal.values()) and j + 1 >= len(case["config"]["sessions"]):
+                    splits.append(j + 1)
+            for j in splits[:: max(1, len(splits) // 3)][:3]:
+                points.append({"kind": "reenter", "at": j})
             for k in range(1, E + 1):
                 points.append({"kind": "event", "k": k, "phase": "before"})
                 points.append({"kind": "event", "k": k, "phase": "after"})
@@ -839,7 +899,7 @@ def run(case: dict[str, Any]) -> dict[str, Any]:
                     probes["disk_error_surfaced_in_statement"] = probes.get("disk_error_surfaced_in_statement", 0) + 1
                 elif fired:
                     probes["disk_error_absorbed"] = probes.get("disk_error_absorbed", 0) + 1
-            name = {"clean": "clean_exit", "exception": "body_exception"}.get(fault["kind"]) or (
+            name = {"clean": "clean_exit", "exception": "body_exception", "reenter": "exception_then_second_patch"}.get(fault["kind"]) or (
                 f"kill_{fault['phase']}_event" if fault["kind"] == "event" else ("disk_eio_once" if fault.get("mode") == 2 else "disk_full") if fault["kind"] == "ioerr" else ("torn_write" if fault.get("torn") else "kill_at_syscall"))
             if fired:
                 faults[name] = faults.get(name, 0) + 1
